@@ -15,13 +15,17 @@ Which value a derivative routine "names":
   clenshaw_qbfs_der           -> sum_n c_n Qbfs(n, u) / (u^2 (1-u^2)),   x = u^2, 2(alphas[i][0]+alphas[i][1])
   clenshaw_q2d_der            -> sum_n c_n Q2d(n, m, u, 0) / u^m,        x = u^2, .5 alphas[i][0] (- 2/5 alphas[i][3])
   compute_z_zprime_Q*         -> the sag they return themselves          (d/du, d/dt)
+                                 AND the value functions they name: sum_n c_n Qbfs(n, u) / Qcon(n, u) / Q2d(n, +-m, u, t) built order
+                                 by order from the value routines ("surface coefficients for Q0..QN"): a slope that is consistent with a
+                                 sag of a different surface (coefficients attached to the wrong orders) is not the derivative of the
+                                 function the routine names
   sphere/conic_sag_der        -> sphere_sag / conic_sag                  (d/drho)
   off_axis_conic_der          -> off_axis_conic_sag                      (d/dr, d/dt)
   der_direction_cosine_spheroid -> 1 / phi_spheroid                      (d/drho)
   off_axis_conic_sigma_der    -> 1 / off_axis_conic_sigma                (d/dr, d/dt)
   Q2d_and_der                 -> the sag it returns itself               (d/drho, d/dtheta)
-(whether the *sums* equal the explicit modal sums is C10, whether the sequences equal the scalar forms
-on every coordinate shape is C08.)
+(whether the returned *sag* equals the explicit modal sum is C10 -- here only the slopes are judged against the derivative of that sum;
+whether the sequences equal the scalar forms on every coordinate shape is C08.)
 """
 import json
 import math
@@ -48,7 +52,7 @@ ASSUMPTIONS = [
 EPS = float(np.finfo(np.float64).eps)
 EPS32 = float(np.finfo(np.float32).eps)
 KTOL = 1000.0         # safety factor on eps * cond.  Measured honest maxima of err/(eps*cond) on the repaired tree, both tiers,
-                      # seeds 0..3: <= 10 for every family, 18 for compute_z_zprime_Q2d, 6 for clenshaw_qbfs_der (see CALIB)
+                      # seeds 0..3: <= 10 for every family, 18 for compute_z_zprime_Q2d, 6 for clenshaw_qbfs_der, <= 9 for the named-modes oracles of compute_z_zprime_Q* (see CALIB)
 CALIB = None          # set to a dict by tools to record the honest error / (eps*cond) ratios
 
 
@@ -186,7 +190,7 @@ def close(R, got, want, cond, sig, what, eps=EPS, extra_tol=0.0):
             g, w = np.asarray(got, dtype=float), np.asarray(want, dtype=float)
             if g.shape == w.shape and g.size:
                 ratio = float(np.max(np.abs(g - w) / (eps * np.asarray(cond, dtype=float) + extra_tol / KTOL + 1e-300)))
-                key = sig.split(':')[0] + ('/f32' if eps == EPS32 else '')
+                key = sig.split(':')[0] + (':named-modes' if ':named-modes' in sig else '') + ('/f32' if eps == EPS32 else '')
                 if not (ratio <= CALIB.get(key, (0.0, ''))[0]):
                     CALIB[key] = (ratio, what)
         except Exception:   # noqa
@@ -735,13 +739,62 @@ def lcls(L):
     return 'len=1' if L == 1 else 'len>1'
 
 
+def masked_dense(mask, seed, salt):
+    """Coefficient vector with the seeded dense (non-zero) representative on the support mask and exact zeros elsewhere."""
+    d = dense((len(mask),), seed, salt, complex_=False)
+    return [float(v) if m else 0.0 for v, m in zip(d, mask)]
+
+
+def spcls(cs):
+    """Sparsity class of a coefficient vector: where its exact zeros are."""
+    nz = [i for i, c in enumerate(cs) if c != 0]
+    if len(nz) == len(cs):
+        return 'full'
+    if not nz:
+        return 'all-zero'
+    out = []
+    if nz[0] > 0:
+        out.append('leading0')
+    if any(b - a > 1 for a, b in zip(nz, nz[1:])):
+        out.append('interior0')
+    if nz[-1] < len(cs) - 1:
+        out.append('trailing0')
+    return '+'.join(out)
+
+
+def coef_forms(cs):
+    """The ways of writing one coefficient vector: (form name, object).  Exact zeros are written as the Python int 0 in the tuple form."""
+    forms = [('list', list(cs)), ('ndarray', np.array(cs, dtype=np.float64)), ('tuple-int0', tuple(0 if c == 0 else c for c in cs))]
+    if all(float(c).is_integer() for c in cs):
+        forms.append(('int64', np.array(cs, dtype=np.int64)))
+    return forms
+
+
 def run_zprime_1d(case, seed, R):
-    kind, L, k = case['kind'], case['L'], case['k']
-    cs = unit_or_dense(L, k, seed, 94)
+    kind, L = case['kind'], case['L']
+    k = case.get('k', -1)
+    cs = masked_dense(case['mask'], seed, 94) if 'mask' in case else unit_or_dense(L, k, seed, 94)
     fn = qpoly.compute_z_zprime_Qbfs if kind == 'Qbfs' else qpoly.compute_z_zprime_Qcon
+    val = qpoly.Qbfs if kind == 'Qbfs' else qpoly.Qcon
     name = f'compute_z_zprime_{kind}'
     sig = f'{name}:{lcls(L)}'
-    for arg in (cs, np.array(cs, dtype=np.float64)):
+    deg = 2 * (L - 1) + 4
+
+    # the value function the routine names: "surface coefficients for Q0..QN" -- coefficient n multiplies the value routine of order n
+    def fm(un):
+        tot = np.zeros_like(un)
+        for i, c in enumerate(cs):
+            if c != 0:
+                v = R.call(val, i, un.copy(), sig=f'{kind}:value-routine:exception')
+                if v is FAILED:
+                    return FAILED
+                tot = tot + c * np.asarray(v, dtype=float)
+        return tot
+    orcm = Cheb1D(fm, 0, 1, deg)
+    if orcm.ok:
+        R.expect(orcm.tail_ok(), f'{kind}:value-not-degree-n', f'sum of {kind} values is not of degree {deg} in u; oracle invalid (tail {orcm.tail:.3e})')
+    sigm = f'{name}:named-modes:{lcls(L)}'
+    for form, arg in coef_forms(cs):
         def f(un):
             out = R.call(fn, arg, un.copy(), un * un, sig=sig + ':exception')
             if out is FAILED:
@@ -750,17 +803,20 @@ def run_zprime_1d(case, seed, R):
                 R.violation(name + ':return', 'does not return (S, Sprime)')
                 return FAILED
             return out[0]
-        orc = Cheb1D(f, 0, 1, 2 * (L - 1) + 4)
+        orc = Cheb1D(f, 0, 1, deg)
         if not orc.ok:
             continue
         R.expect(orc.tail_ok(), f'{name}:sag-not-degree-n', f'returned sag is not of degree {2 * L + 2} in u; oracle invalid (tail {orc.tail:.3e})')
         out = R.call(fn, arg, UQ.copy(), UQ * UQ, sig=sig + ':exception')
         if out is FAILED:
             continue
-        close(R, out[1], orc.der(UQ), sum(orc.cond(UQ)), sig, f'Sprime vs d/du of the returned S, coefs={cs}')
+        close(R, out[1], orc.der(UQ), sum(orc.cond(UQ)), sig, f'Sprime vs d/du of the returned S, coefs={cs} given as {form}')
         close(R, out[0], orc.der(UQ, 0), orc.scale * (orc.deg + 1), sig + ':sag-consistency', 'S at the evaluation points vs its own interpolant')
+        if orcm.ok:
+            close(R, out[1], orcm.der(UQ), sum(orcm.cond(UQ)) + 1e-300, sigm,
+                  f'Sprime vs d/du of sum_n c_n {kind}(n, u) (the value routine, order by order), coefs={cs} ({spcls(cs)}) given as {form}')
     R.nontrivial()
-    R.outcome('unit' if k >= 0 else 'dense')
+    R.outcome('unit' if 'mask' not in case and k >= 0 else ('dense' if 'mask' not in case else 'sparse:' + spcls(cs)))
 
 
 def q2d_structure(st, k, seed):
@@ -836,6 +892,29 @@ def run_zprime_q2d(case, seed, R):
         return
     close(R, out[1], orc.eval(UQ, ZT, dr=1), sum(orc.cond(UQ, ZT, dr=1)), sig + ':dr', f'dz/du vs d/du of the returned z; cm0={cm0} ams={ams} bms={bms} (unit coefficient in {q2d_where(st, k)})')
     close(R, out[2], orc.eval(UQ, ZT, dt=1), sum(orc.cond(UQ, ZT, dt=1)), sig + ':dt', f'dz/dt vs d/dt of the returned z; cm0={cm0} ams={ams} bms={bms}')
+
+    # the value functions the routine names: cm0[n] multiplies Qbfs(n, u), ams[m-1][n] multiplies Q2d(n, m, u, t), bms[m-1][n] multiplies Q2d(n, -m, u, t)
+    def fm(u, t):
+        tot = np.zeros_like(u)
+        terms = [(c, qpoly.Qbfs, (n, u)) for n, c in enumerate(cm0)]
+        for mi, (a, b) in enumerate(zip(ams, bms)):
+            terms += [(c, qpoly.Q2d, (n, mi + 1, u, t)) for n, c in enumerate(a)]
+            terms += [(c, qpoly.Q2d, (n, -(mi + 1), u, t)) for n, c in enumerate(b)]
+        for c, val, args in terms:
+            if c != 0:
+                v = R.call(val, *args, sig='Q2d:value-routine:exception')
+                if v is FAILED:
+                    return FAILED
+                tot = tot + c * np.asarray(v, dtype=float)
+        return tot
+    orcm = Polar(fm, degr, M)
+    if orcm.ok:
+        R.expect(orcm.tail_ok(), 'Q2d:value-not-degree-n', f'sum of Qbfs / Q2d values is not of degree ({degr},{M}); oracle invalid (tail {orcm.tail:.3e})')
+        sigm = f'compute_z_zprime_Q2d:named-modes:{q2d_where(st, k)}'
+        close(R, out[1], orcm.eval(UQ, ZT, dr=1), sum(orcm.cond(UQ, ZT, dr=1)) + 1e-300, sigm + ':dr',
+              f'dz/du vs d/du of sum c Qbfs(n,u) + sum a Q2d(n,m,u,t) + sum b Q2d(n,-m,u,t) (the value routines, term by term); cm0={cm0} ams={ams} bms={bms}')
+        close(R, out[2], orcm.eval(UQ, ZT, dt=1), sum(orcm.cond(UQ, ZT, dt=1)) + 1e-300, sigm + ':dt',
+              f'dz/dt vs d/dt of the explicit sum of the value routines; cm0={cm0} ams={ams} bms={bms}')
     # the same with float64 ndarray coefficients (one set of objects, two calls)
     arrs = (np.array(cm0, dtype=np.float64), [np.array(a, dtype=np.float64) for a in ams], [np.array(b, dtype=np.float64) for b in bms])
     for _ in range(2):
@@ -1175,6 +1254,10 @@ def plan(tier, seed):
     qb_cases = [{'L': L, 'k': k, 'js': JS} for (L, k) in coef_ix]
     q2_cases = [{'m': m, 'L': L, 'k': k, 'js': JS} for m in range(1, MQ + 1) for (L, k) in coef_ix]
     zp_cases = [{'kind': kind, 'L': L, 'k': k} for kind in ('Qbfs', 'Qcon') for (L, k) in coef_ix]
+    # every sparsity pattern: every support mask with 2 <= |support| < L (|support| = 1 are the unit vectors, = L the dense vector)
+    LSP = 8 if q else 10
+    zp_cases += [{'kind': kind, 'L': L, 'mask': [mk >> i & 1 for i in range(L)]} for kind in ('Qbfs', 'Qcon') for L in range(3, LSP + 1)
+                 for mk in range(1, 2 ** L - 1) if bin(mk).count('1') >= 2]
     lens = [[1, 1], [2, 3], [4, 1], [5, 5]] if q else [[1, 1], [2, 3], [4, 1], [5, 5], [1, 4], [8, 6]]
     structs = []
     for Lc in (0, 1, 2, 5):
@@ -1255,14 +1338,18 @@ def plan(tier, seed):
         ScopeUnit('q2d_clenshaw', q2_cases, run_q2d_clenshaw,
                   f'm in [1..{MQ}] x every unit vector of length 1..{LMAX} + dense x j in {JS}: the documented combination of clenshaw_q2d_der alphas against d^i/dx^i of sum c_n Q2d(n,m,u,0)/u^m', reset=reset_all),
         ScopeUnit('zprime_qbfs_qcon', zp_cases, run_zprime_1d,
-                  f'compute_z_zprime_Qbfs / _Qcon: every unit vector of length 1..{LMAX} + dense (list and ndarray): returned slope against d/du of the returned sag (Chebyshev in u on [0,1])', reset=reset_all),
+                  f'compute_z_zprime_Qbfs / _Qcon: every unit vector of length 1..{LMAX} + dense, and every sparsity pattern (every support mask with 2 <= |support| < L, L in 3..{LSP}, '
+                  'seeded dense values on the support, exact zeros elsewhere: leading, interior, trailing zeros in every combination), each written as list, float64 ndarray, tuple with the zeros '
+                  'as Python int 0, and int64 ndarray when integer-valued: returned slope against d/du of the returned sag AND against d/du of sum_n c_n Qbfs(n,u) resp. Qcon(n,u) built from the '
+                  'value routines order by order (both Chebyshev-differentiated in u on [0,1])', reset=reset_all),
         ScopeUnit('zprime_q2d', zq_cases, run_zprime_q2d,
                   f'compute_z_zprime_Q2d: {len(structs)} coefficient structures (cm0 length in {{0,1,2,5}}, 1..{4 if q else 6} azimuthal orders, (len a, len b) from {lens}) x every unit '
-                  'coefficient + dense: returned dr, dt against Chebyshev(u) x Fourier(t) differentiation of the returned sag', reset=reset_all),
+                  'coefficient + dense: returned dr, dt against Chebyshev(u) x Fourier(t) differentiation of the returned sag AND of the explicit sum of the value routines '
+                  '(cm0[n] Qbfs(n,u) + ams[m-1][n] Q2d(n,m,u,t) + bms[m-1][n] Q2d(n,-m,u,t))', reset=reset_all),
         ScopeUnit('zprime_q2d_sparse', zs_sparse_cases, run_zprime_q2d,
                   f'compute_z_zprime_Q2d over EVERY sparsity pattern of the azimuthal orders: every non-empty subset of {{1..{MS}}} populated and the remaining orders below the highest '
                   'given as empty lists, x (len a, len b) in {two-sided unequal, cosine only, sine only, mixed with one-sided and length-1 lists} x cm0 absent/present x every unit '
-                  f'coefficient + dense ({len(sparse_structs)} structures); list and ndarray coefficients', reset=reset_all),
+                  f'coefficient + dense ({len(sparse_structs)} structures); list and ndarray coefficients; same two oracles (returned sag, explicit sum of the value routines)', reset=reset_all),
         ScopeUnit('conic_radial', cr_cases, run_conic_radial,
                   f'(c,k) in {CS} x {KS}: sphere_sag_der, conic_sag_der (phi computed and given), der_direction_cosine_spheroid against complex-step derivatives of '
                   'sphere_sag / conic_sag / 1/phi_spheroid, cross-checked by Richardson-extrapolated central differences', reset=reset_all),
